@@ -24,7 +24,7 @@ type c18Cell struct {
 	Creds  int  `json:"creds"` // 0 none, 1 user, 2 user:password
 	Cert   int  `json:"cert"`  // 0 valid, 1 other host, 2 untrusted CA
 	Host   int  `json:"host"`
-	Refuse int  `json:"proxy_refuses"` // 0 no, 1 status 407, 2 status 407 without reason phrase
+	Refuse int  `json:"proxy_refuses"` // 0 no, 1 status 407, 2 status 407 without reason phrase, 3 status 204 (a 2xx that is not 200), 4 status 302
 }
 
 var proxyNames = []string{"none", "http", "https", "socks5"}
@@ -67,7 +67,7 @@ func init() {
 						if !wss && cert > 0 {
 							continue
 						}
-						for refuse := 0; refuse < 3; refuse++ {
+						for refuse := 0; refuse < 5; refuse++ {
 							if proxy == 0 && refuse > 0 || proxy == 3 && refuse > 1 {
 								continue
 							}
@@ -95,7 +95,7 @@ func init() {
 	core.Register(&core.Prop{
 		ID:    "C18",
 		Level: "exploration",
-		Rule: "the configuration matrix {no proxy, http, https, socks5} x {ws, wss} x the 8 subsets of {NetDial, NetDialContext, NetDialTLSContext} x proxy credentials {none, user, user:password} x backend certificate {valid for the host, other host, untrusted CA} x URL host forms (name, name:port, IPv4, [IPv6], with and without explicit port; loopback forms where no custom dial function applies) x proxy refusal {no, 407, 407 without reason phrase}; " +
+		Rule: "the configuration matrix {no proxy, http, https, socks5} x {ws, wss} x the 8 subsets of {NetDial, NetDialContext, NetDialTLSContext} x proxy credentials {none, user, user:password} x backend certificate {valid for the host, other host, untrusted CA} x URL host forms (name, name:port, IPv4, [IPv6], with and without explicit port; loopback forms where no custom dial function applies) x proxy refusal {no, 407, 407 without reason phrase, 204, 302}; " +
 			"in-process backends, HTTP(S) CONNECT proxy and SOCKS5 proxy on loopback record what they saw; thorough enumerates all cells, quick a fixed stride sample; distinct = the cell; non-trivial = a proxy or TLS is involved",
 		Variants:   core.PlainOnly,
 		Exhaustive: false,
@@ -199,10 +199,7 @@ func runC18(ctx *core.Ctx, out *core.Out) {
 	var sp *socksProxy
 	proxyHostPort := ""
 	proxyLogical := "proxy.test:3128"
-	status := 200
-	if cell.Refuse > 0 {
-		status = 407
-	}
+	status := []int{200, 407, 407, 204, 302}[cell.Refuse]
 	switch cell.Proxy {
 	case 1, 2:
 		var pt *tls.Config
@@ -296,6 +293,9 @@ func runC18(ctx *core.Ctx, out *core.Out) {
 		defer conn.Close()
 	}
 	time.Sleep(5 * time.Millisecond) // let the peers finish recording
+	if cell.Refuse > 0 && cell.Proxy != 3 && conn != nil {
+		time.Sleep(450 * time.Millisecond) // the proxy is still listening for bytes after its refusal
+	}
 	expSuccess := cell.Refuse == 0 && (!cell.WSS || cell.Cert == 0)
 	// give a failing TLS backend a moment to log
 	bs := be.snapshot()
@@ -349,7 +349,13 @@ func runC18(ctx *core.Ctx, out *core.Out) {
 		reqs := append([]connectReq(nil), hp.Reqs...)
 		tun := append([]string(nil), hp.Tunnels...)
 		tlsIn, pconn := hp.TLSIn, hp.Conn
+		afterRefusal := append([]byte(nil), hp.AfterRefusal...)
 		hp.mu.Unlock()
+		if len(afterRefusal) > 0 {
+			desc["sent_after_refusal"] = fmt.Sprintf("%q", afterRefusal)
+			fail("continues-after-proxy-refusal", fmt.Sprintf("the proxy answered CONNECT with status %d and the client went on sending %d bytes into the connection instead of aborting", status, len(afterRefusal)))
+			return
+		}
 		desc["proxy_log"] = map[string]interface{}{"connections": pconn, "requests": reqs, "tls_in": tlsIn}
 		out.Count("connect_requests_checked", 1)
 		if pconn != 1 || len(reqs) != 1 {
